@@ -509,7 +509,7 @@ def h_r1(p: Project, rep: Report):
         v1parse = [n.id for n in pcfg.nodes if n.stmt is not None and n.kind not in ("join", "handlers") and any(text(c.func) == "OFXHeaderV1.parse" for c in n.calls())]
         seek_ids = [n.id for n in pcfg.nodes if n.stmt is not None and n.kind not in ("join", "handlers") and any(isinstance(c.func, ast.Attribute) and c.func.attr == "seek" and text(c.func.value) == src and c.args and not (isinstance(c.args[0], ast.Constant) and c.args[0].value == 0) for c in n.calls())]
         read_ids = [n.id for n in pcfg.nodes if n.stmt is not None and n.kind not in ("join", "handlers") and any(text(c.func) == f"{src}.read" for c in n.calls())]
-        skipped = altered = None
+        skipped = altered = wrong_codec = None
         seen_v1 = 0
         for q in ppl:
             if q.outcome != "return" or not any(i in q.nodes for i in v1parse):
@@ -522,8 +522,12 @@ def h_r1(p: Project, rep: Report):
             v = q.value
             if isinstance(v, ast.Tuple) and len(v.elts) == 2:
                 body_t = text(_PT.value_on_path(q, pcfg, v.elts[1], upto=len(q.nodes) - 1))
-                if _re.fullmatch(_re.escape(src) + r"\.read\(\)\.decode\([\w.]+\.codec\)(\.strip\(\))?", body_t):
+                m_codec = _re.fullmatch(_re.escape(src) + r"\.read\(\)\.decode\(([\w.]+\.codec)\)(\.strip\(\))?", body_t)
+                m_fixed = _re.fullmatch(_re.escape(src) + r"\.read\(\)\.decode\((['\"][\w-]+['\"])\)(\.strip\(\))?", body_t)
+                if m_codec and not m_codec.group(1).startswith("OFXHeaderV"):
                     pass
+                elif m_codec or m_fixed:
+                    wrong_codec = (m_codec or m_fixed).group(1)
                 elif "TextIOWrapper(" in body_t:
                     if _re.search(r"TextIOWrapper\([^)]*newline=''", body_t):
                         pass
@@ -535,6 +539,7 @@ def h_r1(p: Project, rep: Report):
                     rep.note(f"H-R1 undecided: v1 body returned as {body_t[:100]}")
         if seen_v1:
             rep.check("H-R1", "parse_header:v1-repositions-on-every-path", skipped is None, f"a version-1 path reads the body without repositioning the source first (taken when {skipped}): the lines read ahead for the header are lost from the body" if skipped is not None else "", hloc(p, fn0))
+            rep.check("H-R1", "parse_header:v1-body-decoded-as-declared", wrong_codec is None, f"on a version-1 path the body is decoded with {wrong_codec}, whatever CHARSET the header declares: text in ISO-8859-1 / Windows-1252 whose bytes happen to be decodable that way reaches the parser as other characters" if wrong_codec is not None else "", hloc(p, fn0))
             rep.check("H-R1", "parse_header:v1-body-handed-over-whole", altered is None, f"the version-1 body is returned as {altered[:110] if altered else ''}: part of the decoded remainder is cut or rewritten before the parser sees it (text after the last end tag would no longer be refused)" if altered is not None else "", hloc(p, fn0))
     strips = [c_ for c_ in ast.walk(fn) if isinstance(c_, ast.Call) and isinstance(c_.func, ast.Attribute) and c_.func.attr in ("strip", "lstrip", "rstrip") and c_.args]
     for c_ in strips:
